@@ -208,7 +208,7 @@ def run_spec(ctx, rep, spec, model, only=None):
     nf = len(names)
     has_species = any(re.search(r"^Y\(.+\)$", f) for f in names)
     nontriv = nf % 2 == 1 or not has_species or len(spec["levels"]) >= 2 or spec["data"]["mode"] == "bits"
-    tools = ["minuterie", "menu", "menu-mm", "menu-finest", "menu-mm-finest", "menu-mm-desc", "menu-desc", "menu-has", "menu-every", "marinate"]
+    tools = ["minuterie", "menu", "menu-mm", "menu-finest", "menu-mm-finest", "menu-mm-desc", "menu-desc", "menu-has", "menu-has-desc", "menu-every", "marinate"]
     reqs = []
     for tool in tools:
         if only is not None and tool != only:
@@ -279,6 +279,16 @@ def run_spec(ctx, rep, spec, model, only=None):
                     else:
                         rep.tie("description listing differs from the Lean classification model (MenuClass.variables)", case,
                                 {"real": got[:12], "model": ml["vars"][:12]})
+            elif tool == "menu-has-desc":
+                # a search together with the description listing: the listing is still every class once
+                probe = classify(names[0])[0]
+                out = run_main(menucli, ["menu", path, "-hv", probe, "-d"])
+                want = sorted({classify(f)[0] for f in names}, key=str.lower)
+                got = [l.split(" : ")[0].rstrip() for l in out.split("\n") if " : " in l]
+                if f"'{probe}' found" not in out:
+                    rep.fail(f"--has_var {probe} with --description reports {out.strip()[:120]!r}", case)
+                elif sorted(got) != sorted(want) and not listing_ok(got, names):
+                    rep.fail(f"description listing (with --has_var) shows {got}, expected {want}", case)
             elif tool == "menu-every":
                 # every entry of the database and every other field of the header, each with whether it is in the plotfile
                 out = run_main(menucli, ["menu", path, "-e"])
@@ -306,11 +316,36 @@ def run_spec(ctx, rep, spec, model, only=None):
                             rep.fail(f"--has_var {cl}: reports {out.strip()[:120]!r} although the header holds a field of that class", case)
             elif tool == "marinate":
                 if spec["ndims"] != 3:
-                    rep.count("marinate-2d-skipped")
+                    # refused (the ghost map is three-dimensional): whatever the call leaves beside the plotfile can be loaded
+                    rep.count("marinate-2d-refused")
+                    try:
+                        run_main(marinate, ["marinate", path])
+                    except BaseException as e:
+                        if isinstance(e, KeyboardInterrupt): raise
+                    if os.path.exists(path + ".pkl"):
+                        try:
+                            with open(path + ".pkl", "rb") as f:
+                                pickle.load(f)
+                        except Exception as e:
+                            rep.fail(f"a marinate call that failed left a pickle beside the plotfile that cannot be loaded ({type(e).__name__})", case)
                     continue
                 bad = marinated_differs(marinate, path, truth)
                 if bad:
                     rep.fail(bad, case); continue
+                # a second call that fails (the level header of the finest level has gone) leaves the pickle of the first loadable
+                lvh = os.path.join(path, f"Level_{len(spec['levels']) - 1}", "Cell_H")
+                saved = open(lvh, "rb").read(); os.remove(lvh)
+                try:
+                    run_main(marinate, ["marinate", path])
+                except BaseException as e:
+                    if isinstance(e, KeyboardInterrupt): raise
+                finally:
+                    open(lvh, "wb").write(saved)
+                try:
+                    with open(path + ".pkl", "rb") as f:
+                        pickle.load(f)
+                except Exception as e:
+                    rep.fail(f"after a second marinate call that failed, the pickle written by the first cannot be loaded ({type(e).__name__})", case); continue
                 # the plotfile is rewritten in place (same file names, other values and time, as the writers of the
                 # toolbox do when the output directory exists) and marinated again: the pickle describes what is there now
                 spec2 = copy.deepcopy(spec)
